@@ -124,3 +124,117 @@ Proof. reflexivity. Qed.
 Lemma tie_source_get_range : TIE_source_get_range =
   [(0, "return(s->source_get_range(s->clos,key0,len_key0,key1,len_key1))")].
 Proof. reflexivity. Qed.
+
+(* mtbl/reader.c: mtbl_reader_options_init *)
+Lemma tie_rdr_mtbl_reader_options_init : TIE_rdr_mtbl_reader_options_init =
+  [(0, "return(my_calloc(1,sizeof(structmtbl_reader_options)))")].
+Proof. reflexivity. Qed.
+
+(* mtbl/reader.c: mtbl_reader_options_destroy *)
+Lemma tie_rdr_mtbl_reader_options_destroy : TIE_rdr_mtbl_reader_options_destroy =
+  [(0, "if(*opt)");
+   (1, "free(*opt)");
+   (1, "*opt=NULL")].
+Proof. reflexivity. Qed.
+
+(* mtbl/reader.c: mtbl_reader_options_set_madvise_random *)
+Lemma tie_rdr_mtbl_reader_options_set_madvise_random : TIE_rdr_mtbl_reader_options_set_madvise_random =
+  [(0, "opt->madvise_random=madvise_random")].
+Proof. reflexivity. Qed.
+
+(* mtbl/reader.c: mtbl_reader_options_set_verify_checksums *)
+Lemma tie_rdr_mtbl_reader_options_set_verify_checksums : TIE_rdr_mtbl_reader_options_set_verify_checksums =
+  [(0, "opt->verify_checksums=verify_checksums")].
+Proof. reflexivity. Qed.
+
+(* mtbl/reader.c: mtbl_reader_metadata *)
+Lemma tie_rdr_mtbl_reader_metadata : TIE_rdr_mtbl_reader_metadata =
+  [(0, "return&r->m")].
+Proof. reflexivity. Qed.
+
+(* mtbl/reader.c: mtbl_reader_source *)
+Lemma tie_rdr_mtbl_reader_source : TIE_rdr_mtbl_reader_source =
+  [(0, "assert(r!=NULL)");
+   (0, "return(r->source)")].
+Proof. reflexivity. Qed.
+
+(* mtbl/reader.c: get_block_at_index *)
+Lemma tie_rdr_get_block_at_index : TIE_rdr_get_block_at_index =
+  [(0, "constuint8_t*ikey,*ival");
+   (0, "size_tlen_ikey,len_ival");
+   (0, "if(block_iter_get(index_iter,&ikey,&len_ikey,&ival,&len_ival))");
+   (1, "structblock*b");
+   (1, "uint64_toffset");
+   (1, "mtbl_varint_decode64(ival,&offset)");
+   (1, "b=get_block(r,offset)");
+   (1, "*block_offset=offset");
+   (1, "return(b)");
+   (0, "return(NULL)")].
+Proof. reflexivity. Qed.
+
+(* mtbl/reader.c: reader_iter *)
+Lemma tie_rdr_reader_iter : TIE_rdr_reader_iter =
+  [(0, "structmtbl_reader*r=(structmtbl_reader*)clos");
+   (0, "structreader_iter*it=my_calloc(1,sizeof(*it))");
+   (0, "it->r=r");
+   (0, "it->index_iter=block_iter_init(r->index)");
+   (0, "block_iter_seek_to_first(it->index_iter)");
+   (0, "it->b=get_block_at_index(r,it->index_iter,&it->block_offset)");
+   (0, "if(it->b==NULL)");
+   (1, "block_iter_destroy(&it->index_iter)");
+   (1, "block_destroy(&it->b)");
+   (1, "free(it)");
+   (1, "return(NULL)");
+   (0, "it->bi=block_iter_init(it->b)");
+   (0, "block_iter_seek_to_first(it->bi)");
+   (0, "it->first=true");
+   (0, "it->valid=true");
+   (0, "it->it_type=READER_ITER_TYPE_ITER");
+   (0, "return(mtbl_iter_init(reader_iter_seek,reader_iter_next,reader_iter_free,it))")].
+Proof. reflexivity. Qed.
+
+(* mtbl/reader.c: reader_get *)
+Lemma tie_rdr_reader_get : TIE_rdr_reader_get =
+  [(0, "structmtbl_reader*r=(structmtbl_reader*)clos");
+   (0, "structreader_iter*it=reader_iter_init(r,key,len_key)");
+   (0, "if(it==NULL)return(NULL)");
+   (0, "it->k=ubuf_init(len_key)");
+   (0, "ubuf_append(it->k,key,len_key)");
+   (0, "it->it_type=READER_ITER_TYPE_GET");
+   (0, "return(mtbl_iter_init(reader_iter_seek,reader_iter_next,reader_iter_free,it))")].
+Proof. reflexivity. Qed.
+
+(* mtbl/reader.c: reader_get_prefix *)
+Lemma tie_rdr_reader_get_prefix : TIE_rdr_reader_get_prefix =
+  [(0, "structmtbl_reader*r=(structmtbl_reader*)clos");
+   (0, "structreader_iter*it=reader_iter_init(r,key,len_key)");
+   (0, "if(it==NULL)return(NULL)");
+   (0, "it->k=ubuf_init(len_key)");
+   (0, "ubuf_append(it->k,key,len_key)");
+   (0, "it->it_type=READER_ITER_TYPE_GET_PREFIX");
+   (0, "return(mtbl_iter_init(reader_iter_seek,reader_iter_next,reader_iter_free,it))")].
+Proof. reflexivity. Qed.
+
+(* mtbl/reader.c: reader_get_range *)
+Lemma tie_rdr_reader_get_range : TIE_rdr_reader_get_range =
+  [(0, "structmtbl_reader*r=(structmtbl_reader*)clos");
+   (0, "structreader_iter*it=reader_iter_init(r,key0,len_key0)");
+   (0, "if(it==NULL)return(NULL)");
+   (0, "it->k=ubuf_init(len_key1)");
+   (0, "ubuf_append(it->k,key1,len_key1)");
+   (0, "it->it_type=READER_ITER_TYPE_GET_RANGE");
+   (0, "return(mtbl_iter_init(reader_iter_seek,reader_iter_next,reader_iter_free,it))")].
+Proof. reflexivity. Qed.
+
+(* mtbl/source.c: mtbl_source_destroy *)
+Lemma tie_src_mtbl_source_destroy : TIE_src_mtbl_source_destroy =
+  [(0, "if(*s)");
+   (1, "if((*s)->source_free!=NULL)(*s)->source_free((*s)->clos)");
+   (1, "free(*s)");
+   (1, "*s=NULL")].
+Proof. reflexivity. Qed.
+
+(* mtbl/source.c: mtbl_source_iter *)
+Lemma tie_src_mtbl_source_iter : TIE_src_mtbl_source_iter =
+  [(0, "return(s->source_iter(s->clos))")].
+Proof. reflexivity. Qed.
